@@ -183,7 +183,7 @@ pub fn oracle(line: &str) -> String {
     // domain
     match &shp {
         Shp::Poly(v) if !is_simple(v) => return "na".into(),
-        Shp::Path(_, v) if v.is_empty() || !manhattan(v) => return "na".into(),
+        Shp::Path(_, v) if !manhattan(v) => return "na".into(),
         _ => {}
     }
     let shape = to_shape(&shp);
